@@ -275,6 +275,7 @@ class Node:
         self.signed = False
         self.online = True
         self.tainted = False  # accepted a message that was corrupted / foreign / from a tainted node: its state is garbage-in
+        self.inbox = []  # (parsed PSBT object handed to combine(), the bytes it was parsed from, clean?) - the objects are kept and reused
 
 
 class Ceremony:
@@ -357,7 +358,15 @@ class Ceremony:
             return True
         tr.probe("reviews")
         hdmap = {c.fingerprint.hex(): HDPublicKey.parse(c.xpub()) for c in s.cos}
+        self.updated_before_review = False
         try:
+            if self.plan.get("review_update"):
+                # the signer first refreshes the PSBT from its own records of the previous transactions (updater role), then reads
+                # the summary: amounts must now be the genuine ones whatever the message claimed
+                lookup = {fid: Tx.parse(BytesIO(tm.ser_tx(f)), network="mainnet") for fid, f in s.funding.items()}
+                p.update(lookup, {})
+                self.updated_before_review = True
+                tr.fault("signer_updates_from_own_records")
             d = p.describe_basic_multisig(hdpubkey_map=hdmap)
             out = "summarised"
         except SimDeadlock:
@@ -409,6 +418,8 @@ class Ceremony:
                     # only for genuinely segwit inputs is a witness UTXO the legitimate (and unverifiable) record
                     true_spk = f["outs"][i["vout"]]["spk"]
                     cause = "_witness_utxo_amount" if (len(true_spk) == 34 and true_spk[:2] == b"\x00\x20") else "_witness_utxo_on_legacy_input"
+                    if getattr(self, "updated_before_review", False):
+                        cause += "_after_update_with_prev_tx"
         if known_all:
             if d["tx_fee_sats"] != true_in - out_sum:
                 fail("C11", "R1", "fee_misstated" + cause, f"summary says fee {d['tx_fee_sats']} sats; the inputs are worth {true_in} and the outputs {out_sum}, fee {true_in - out_sum}")
@@ -548,6 +559,26 @@ class Ceremony:
                     tr.probe(f"corrupt_sig_slot_{'first' if kk == min(k for i2, k in slots if i2 == ii) else 'later'}_of_{sum(1 for i2, k in slots if i2 == ii)}")
             except Exception:
                 pass
+        if st.get("amount_lie"):
+            # the message (possibly carrying partial signatures that were already validated elsewhere in this process) is altered only in
+            # data the txid does not commit to: the amount stated by every witness-UTXO record
+            try:
+                pmx = psbtmap.parse(raw)
+                changed = False
+                for m_ in pmx["inputs"]:
+                    for kk, (k_, v_) in enumerate(m_):
+                        if k_ == b"\x01" and len(v_) > 8:
+                            amt = int.from_bytes(v_[:8], "little")
+                            new = amt + st["amount_lie"] if amt + st["amount_lie"] > 0 else amt + abs(st["amount_lie"])
+                            m_[kk] = (k_, new.to_bytes(8, "little") + v_[8:])
+                            changed = True
+                if changed:
+                    had_sigs = any(k_[:1] == b"\x02" for m_ in pmx["inputs"] for (k_, v_) in m_)
+                    raw = psbtmap.serialize(pmx)
+                    clean = False
+                    tr.fault("amount_lie_on_signed" if had_sigs else "amount_lie_on_unsigned")
+            except Exception:
+                pass
         if st.get("corrupt"):
             bb = bytearray(raw)
             for (pos, bit) in st["corrupt"]:
@@ -622,6 +653,8 @@ class Ceremony:
                 dst.psbt.combine(p)
                 dst.known |= set(known)
                 tr.ev(dst.name, "combine", "ok")
+                if dst.signer_idx is None:
+                    dst.inbox.append((p, raw, clean and not dst.tainted))
             except SimDeadlock:
                 raise
             except Exception as e:
@@ -954,6 +987,44 @@ class Ceremony:
                 psbtmap.set_value(om, b"\x01", ws2)
             if red2 is not None:
                 psbtmap.set_value(om, b"\x00", red2)
+        elif kind == "weak_quorum_dust_input":
+            # dust attack: the adversary funds an output locked by a WEAKER quorum ((m-1)-of-n) over the cosigners' own keys, puts it in
+            # front of the wallet's input(s), fully and correctly documented, and turns the change output into the same weak quorum
+            if ch_pos is None or s.n < 2 or s.m < 2 or s.kind not in ("p2sh", "p2wsh"):
+                return None
+            m2 = s.m - 1
+            ix = s.inputs[0]["index"] + 11 + a % 7
+            pks_in = [secp.sec(c.child_pub(0, ix)) for c in s.cos]
+            spk_in, red_in, ws_in = rw.spend_script(s.kind, m2, pks_in)
+            dust = 600 + a % 400
+            ftx = {"version": 2, "ins": [{"txid": tm.sha256(b"dust%d" % a), "vout": 0, "script_sig": tm.script(b"\x30" * 71, b"\x02" * 33), "sequence": 0xFFFFFFFE, "witness": []}],
+                   "outs": [{"amount": dust, "spk": spk_in}], "locktime": 0}
+            fid = tm.txid(ftx)
+            s.funding[fid] = ftx  # the dust output genuinely exists on chain
+            pos = 0 if a % 3 else len(tx["ins"])
+            tx["ins"].insert(pos, {"txid": fid, "vout": 0, "script_sig": b"", "sequence": tx["ins"][0]["sequence"], "witness": []})
+            tx["outs"][ch_pos]["amount"] += dust  # fee unchanged
+            im = []
+            if psbtmap.get(pm["inputs"][0], 0x00) or s.kind == "p2sh":
+                im.append((b"\x00", tm.ser_tx(ftx)))
+            else:
+                im.append((b"\x01", dust.to_bytes(8, "little") + tm.compact_size(len(spk_in)) + spk_in))
+            if red_in is not None:
+                im.append((b"\x04", red_in))
+            if ws_in is not None:
+                im.append((b"\x05", ws_in))
+            for pk, c in zip(pks_in, s.cos):
+                acc = secp.parse_path(c.account_path)
+                im.append((b"\x06" + pk, c.fingerprint + b"".join(i.to_bytes(4, "little") for i in acc + [0, ix])))
+            pm["inputs"].insert(pos, im)
+            spk2, red2, ws2 = rw.spend_script(s.kind, m2, s.change["pks"])
+            tx["outs"][ch_pos]["spk"] = spk2
+            put_tx()
+            om = pm["outputs"][ch_pos]
+            if ws2 is not None:
+                psbtmap.set_value(om, b"\x01", ws2)
+            if red2 is not None:
+                psbtmap.set_value(om, b"\x00", red2)
         elif kind == "second_change":
             if ch_pos is None:
                 return None
@@ -1020,6 +1091,40 @@ class Ceremony:
             canon_raw = canon.serialize()
             if canon_raw != before:
                 fail("C10", "Q3", "combined_psbt_depends_on_history", f"{c.name}'s combined PSBT ({len(before)} bytes) differs from the canonical schedule's (star, index order, each once) for the same signer set {sorted(observed)} ({len(canon_raw)} bytes)")
+        # Q3c: the coordinator kept the PSBT objects it received and handed to combine(): they still are what was received, and
+        # re-using them to rebuild any sub-combination on a fresh copy of the unsigned PSBT gives exactly their own signers
+        if not self.tainted and c.inbox and all(cl_ for _, _, cl_ in c.inbox):
+            tr.oracle("Q3_operands")
+            tr.probe("operand_reuse_audits")
+            for k, (obj, raw_k, _) in enumerate(c.inbox):
+                try:
+                    now = obj.serialize()
+                except SimDeadlock:
+                    raise
+                except Exception as e:
+                    now = None
+                if now != raw_k:
+                    fail("C10", "Q3", "combine_changed_its_argument", f"the PSBT object of message {k} that {c.name} received and passed to combine() no longer serialises to the bytes it was parsed from (signers then {sorted(self.signers_in(psbtmap.parse(raw_k)))}, now {sorted(self.signers_in(psbtmap.parse(now))) if now else None})")
+                    break
+            else:
+                groups = [[k] for k in range(len(c.inbox))][:4] + [[k, k + 1] for k in range(len(c.inbox) - 1)][:3]
+                for g in groups:
+                    try:
+                        fresh = PSBT.parse(BytesIO(self.p0), network="mainnet")
+                        for k in g:
+                            fresh.combine(c.inbox[k][0])
+                        got = self.signers_in(psbtmap.parse(fresh.serialize()))
+                    except (SimDeadlock, Violation):
+                        raise
+                    except Exception as e:
+                        fail("C10", "Q6", "recombine_same_tx_raised", f"re-combining received PSBT objects {g} into a fresh copy raised {type(e).__name__}: {e}")
+                        break
+                    want = set()
+                    for k in g:
+                        want |= self.signers_in(psbtmap.parse(c.inbox[k][1]))
+                    if got != want:
+                        fail("C10", "Q3", "recombination_signer_set", f"combining received messages {g} (signers {sorted(want)}) into a fresh unsigned PSBT yields signatures of signers {sorted(got)}")
+                        break
         # finalise + extract on a re-parsed copy (the combiner's own object stays usable)
         fin = None
         try:
@@ -1114,12 +1219,12 @@ def execute(plan, prop, trace):
         fail("C10", "Q7", "fault_free_ceremony_incomplete", f"fault-free {cer.setup.kind} {cer.setup.m}-of-{cer.setup.n} ceremony over schedule '{plan.get('topology')}' did not produce a final transaction: {outs}")
     s = cer.setup
     return {"wallet": f"{s.kind} {s.m}-of-{s.n}", "inputs": len(s.inputs), "outputs": len(s.outputs), "change": s.change is not None, "topology": plan.get("topology"), "creator": plan.get("creator"),
-            "steps": [(x.get("src", x.get("node", "")) + ">" + x.get("dst", "") if x["op"] == "send" else x["op"]) + "".join("+" + k for k in ("dup", "stale", "corrupt", "corrupt_sig", "crosstalk", "byz", "tamper") if x.get(k)) for x in plan["steps"]], "finalize": outs}
+            "steps": [(x.get("src", x.get("node", "")) + ">" + x.get("dst", "") if x["op"] == "send" else x["op"]) + "".join("+" + k for k in ("dup", "stale", "corrupt", "corrupt_sig", "crosstalk", "byz", "tamper", "amount_lie") if x.get(k)) for x in plan["steps"]], "finalize": outs}
 
 
 # ------------------------------------------------------------------------------------------------ generation
 
-TAMPER_KINDS = ["swap_change_spk", "flip_change_spk_byte", "foreign_script", "foreign_fingerprint", "wrong_path", "one_cosigner_keys", "one_cosigner_keys_spoofed_fps", "utxo_amount", "other_prev_tx", "changed_quorum", "second_change",
+TAMPER_KINDS = ["weak_quorum_dust_input", "weak_quorum_dust_input", "swap_change_spk", "flip_change_spk_byte", "foreign_script", "foreign_fingerprint", "wrong_path", "one_cosigner_keys", "one_cosigner_keys_spoofed_fps", "utxo_amount", "other_prev_tx", "changed_quorum", "second_change",
                 "redeem_for_other_input", "forge_change", "forge_change", "forge_change", "nonwitness_utxo_foreign_script", "both_utxo_records_disagree", "swap_change_spk_type", "swap_change_spk_type", "p2sh_input_as_witness_utxo"]
 
 
@@ -1195,6 +1300,7 @@ def generate(ch, tier, prop):
         plan["creator"] = {"segwit_flag": False, "xpubs": ch.chance(0.3), "unknown": ch.chance(0.2), "helper": ch.chance(0.3)}
         plan["sign_method"] = "keys"
         plan["topology"] = "review"
+        plan["review_update"] = ch.chance(0.3)
         st = {"op": "send", "src": "C", "dst": "S0"}
         r = ch.random()
         if r < 0.2:
@@ -1234,6 +1340,8 @@ def generate(ch, tier, prop):
             if "corrupt" in kinds_f and st["src"] != "C" or ("corrupt" in kinds_f and ch.chance(0.3)):
                 if ch.chance(p * 1.5):
                     st["corrupt_sig"] = {"which": ch.randrange(0, 8), "bit": ch.randrange(0, 600), "in_key": ch.chance(0.2)}
+            if "corrupt" in kinds_f and st["src"] != "C" and ch.chance(p):
+                st["amount_lie"] = ch.choice([1, -1, 1000, -1000, 2**32, ch.randrange(1, 10**6)])
             if "crosstalk" in kinds_f and ch.chance(p * 0.5):
                 st["crosstalk"] = True
             if "byz" in kinds_f and st["src"].startswith("S") and ch.chance(p):
@@ -1293,17 +1401,33 @@ def enumerate_plans(tier, prop, seed):
         # the catalogue against both wallet types
         for kind in ("p2sh", "p2wsh"):
             for tk in [None] + TAMPER_KINDS:
-                for rep in range(1 if tier == "quick" else 4):
-                    plan = base(kind, r.choice([1, 2]), 2 if tier == "quick" else r.choice([2, 3]))
+                for rep in range((1 if tier == "quick" else 4) * (3 if tk == "weak_quorum_dust_input" else 1)):
+                    plan = base(kind, r.choice([1, 2]) if tk != "weak_quorum_dust_input" else 2, 2 if tier == "quick" else r.choice([2, 3]))
                     plan["creator"] = {"segwit_flag": False, "xpubs": rep % 2 == 1, "unknown": False, "helper": kind == "p2sh" and rep % 2 == 0}
                     plan["sign_method"] = "keys"
                     plan["topology"] = "review"
                     st = {"op": "send", "src": "C", "dst": "S0"}
                     if tk:
-                        st["tamper"] = {"kind": tk, "a": r.randrange(10000)}
+                        st["tamper"] = {"kind": tk, "a": r.randrange(10000) if tk != "weak_quorum_dust_input" else 3 * r.randrange(3000) + rep % 3}
                         plan["tamper"] = st["tamper"]
                     plan["steps"] = [st]
                     plan["enum"] = "catalogue"
+                    yield plan
+        # the signer refreshes the PSBT from its own records before reading the summary: UTXO-related tampering and honest messages
+        for kind in ("p2sh", "p2wsh"):
+            for tk in [None, "utxo_amount", "both_utxo_records_disagree", "p2sh_input_as_witness_utxo", "other_prev_tx", "nonwitness_utxo_foreign_script"]:
+                for rep in range(2 if tier == "quick" else 6):
+                    plan = base(kind, r.choice([1, 2]), 2)
+                    plan["creator"] = {"segwit_flag": False, "xpubs": False, "unknown": False, "helper": False}
+                    plan["sign_method"] = "keys"
+                    plan["topology"] = "review"
+                    plan["review_update"] = True
+                    st = {"op": "send", "src": "C", "dst": "S0"}
+                    if tk:
+                        st["tamper"] = {"kind": tk, "a": r.randrange(10000)}
+                        plan["tamper"] = st["tamper"]
+                    plan["steps"] = [st]
+                    plan["enum"] = "update-then-review"
                     yield plan
         return
     # C10: every wallet type, honest star ceremony with all signers, both creator flags (quick: a subset of (m,n))
@@ -1338,6 +1462,20 @@ def enumerate_plans(tier, prop, seed):
                     plan["steps"] = steps + [{"op": "finalize"}]
                     plan["enum"] = "corrupt-sig-slots"
                     yield plan
+    # witness-UTXO amount lie on a signature-carrying reply, every segwit wallet kind, first and second reply
+    for kind, m, n in (("p2wpkh", 1, 1), ("p2sh_p2wpkh", 1, 1), ("p2wsh", 2, 2), ("p2sh_p2wsh", 2, 2)):
+        for which in range(n):
+            for delta in (1, -1000):
+                plan = base(kind, m, n)
+                plan["creator"] = {"segwit_flag": False, "xpubs": False, "unknown": False, "helper": False}
+                plan["sign_method"] = "keys"
+                plan["encoding"] = "raw"
+                plan["topology"] = "star"
+                steps = [{"op": "send", "src": "C", "dst": f"S{j}"} for j in range(n)] + [{"op": "send", "src": f"S{j}", "dst": "C"} for j in range(n)]
+                steps[n + which]["amount_lie"] = delta
+                plan["steps"] = steps + [{"op": "finalize"}]
+                plan["enum"] = "amount-lie"
+                yield plan
     # all signer subsets x all arrival orders for a 2-of-3 (thorough: also 2-of-4), star topology
     from itertools import permutations
 
@@ -1362,7 +1500,7 @@ def enumerate_plans(tier, prop, seed):
 
 def shrink(plan):
     for i, st in enumerate(plan["steps"]):
-        for key in ("dup", "stale", "corrupt", "corrupt_sig", "crosstalk", "byz"):
+        for key in ("dup", "stale", "corrupt", "corrupt_sig", "crosstalk", "byz", "amount_lie"):
             if st.get(key):
                 p = dict(plan, steps=[dict(x) for x in plan["steps"]])
                 del p["steps"][i][key]
